@@ -1,6 +1,8 @@
 use cfg_aliases::cfg_aliases;
 
 fn main() {
+    // verification hooks (see `__verif` in lib.rs) are compiled only with this cfg
+    println!("cargo::rustc-check-cfg=cfg(compio_rs_compio_verif)");
     cfg_aliases! {
         // Feature
         aio: { any(freebsd, solarish) },
